@@ -129,6 +129,8 @@ type Interp struct {
 	lastSorted   *sortedRec
 	bufTags      map[*Cell]Value
 	lenSeq       int
+	runBudget    int
+	RunSteps     int // step budget of the code run under vRun (exceeding it = "does not terminate")
 	externCalls  []string
 	obs          []Obs
 	onceDone     map[*Cell]bool
@@ -165,7 +167,7 @@ func NewInterp(prog *ssa.Program, bank *sym.Bank, pool *sym.Pool) *Interp {
 	in := &Interp{Prog: prog, B: bank, Pool: pool, WordBits: 64, GOARCH: "amd64", GOOS: "linux",
 		Globals: map[*ssa.Global]*Cell{}, InterpPkgs: map[string]bool{}, Intrinsics: map[string]IntrinsicFn{},
 		Host: map[string]HostFn{}, Redirect: map[string]string{}, SkipInit: map[string]bool{}, TraceFns: map[string]bool{},
-		Params: map[string]interface{}{}, OpenKnown: map[string]bool{}, Summarize: map[string]bool{}, MapOrder: "asc", MaxPaths: 4096, MaxSteps: 200_000_000, MaxDecide: 400,
+		Params: map[string]interface{}{}, OpenKnown: map[string]bool{}, Summarize: map[string]bool{}, MapOrder: "asc", MaxPaths: 4096, MaxSteps: 400_000_000, RunSteps: 40_000_000, MaxDecide: 400,
 		atomCodes: map[string]uint64{}, lowerFacts: map[string]bool{}}
 	in.resetInstance()
 	registerIntrinsics(in)
@@ -449,6 +451,7 @@ func (in *Interp) runPath(fn *ssa.Function, prefix []int) {
 	in.lastSorted = nil
 	in.bufTags = nil
 	in.lenSeq = 0
+	in.runBudget = 0
 	in.externCalls = nil
 	kind := "done"
 	func() {
@@ -946,6 +949,10 @@ func (in *Interp) interpret(fn *ssa.Function, args []Value, env []Value) (result
 			in.steps++
 			if in.steps > in.MaxSteps {
 				panic(pathEnd{kind: "budget", msg: "step budget exhausted"})
+			}
+			if in.runBudget > 0 && in.steps > in.runBudget {
+				in.runBudget = 0
+				panic(pathEnd{kind: "nonterm", msg: fmt.Sprintf("code under vRun executed more than %d SSA instructions", in.RunSteps)})
 			}
 			in.FuncInstrs[fname]++
 			if p := instr.Pos(); p.IsValid() {
